@@ -449,6 +449,8 @@ type Contract struct {
 	Pkg      string // package path the contract file belongs to (for name resolution)
 	Used     bool
 	Modifies []string // whole components havoc'd (raw names) for trusted contracts
+	Implements string // key of the interface-method contract this function refines
+	ImplTags   []string
 }
 
 type SpecDef struct {
@@ -776,6 +778,16 @@ func (cs *ContractSet) loadContractFile(path string, pkgPath string, trusted boo
 				for _, a := range strings.Split(rest, ",") {
 					cur.Modifies = append(cur.Modifies, strings.TrimSpace(a))
 				}
+			}
+		case "implements":
+			if cur != nil {
+				c2, err := parseHeader("func "+rest+"()", pkgPath)
+				if err == nil {
+					cur.Implements = c2.Key
+				} else {
+					cs.Errors = append(cs.Errors, where+": "+err.Error())
+				}
+				cur.ImplTags = tags
 			}
 		case "pure":
 			if cur != nil {
